@@ -72,6 +72,7 @@ class LibMixin:
     def init_lib(self):
         L, F = LibClass.get, LibFn.get
         self.cached_functions: set = set()
+        self.cached_funcs: dict = {}
         b = {}
         for n in ("int", "str", "bytes", "float", "bool", "tuple", "list", "dict", "set", "frozenset", "bytearray",
                   "object", "type", "range", "memoryview"):
@@ -827,11 +828,13 @@ class LibMixin:
     def lib_functools_cache(self, a, kw, run, node):
         if isinstance(a[0], FuncV):
             self.cached_functions.add(a[0].uid)
+            self.cached_funcs[a[0].uid] = a[0]
         return a[0]
 
     def lib_functools_lru_cache(self, a, kw, run, node):
         if a and isinstance(a[0], FuncV):
             self.cached_functions.add(a[0].uid)
+            self.cached_funcs[a[0].uid] = a[0]
             return a[0]
         return LibFn.get("functools.cache")
 
@@ -1092,6 +1095,13 @@ class LibMixin:
             return GenericV(o, args)
         if isinstance(o, Sym) or isinstance(k, Sym):
             return self.sym_getitem(o, k, run, node)
+        if isinstance(o, ListV) and o.may and isinstance(k, int) and not o.items:
+            # the list is filled by a loop with a run-time trip count: it may still be empty
+            run.emit("raise-site", "IndexError", self.site(node), "subscript of a list that is empty when the loop ran zero times")
+            if run.decide(("nonempty", term_of(o)), self.site(node)):
+                vals = o.may
+                return vals[0] if len(vals) == 1 else Sym(("maybe", tuple(term_of(v) for v in vals)), "any", alts=list(vals))
+            self.throw("IndexError", "list index out of range", node)
         if isinstance(o, ListV):
             o = o.items
             wrap = True
